@@ -77,7 +77,8 @@ Vias(it) == IF it.t \in ArrTags THEN {"vec", "view"}       \* std::vector<T> / s
             ELSE {"typed"}                                 \* operator>> into the type written
 
 -------------------------------------------------------------------------------
-EmptyState == [items |-> <<>>, bytes |-> 0, calc |-> 0, phase |-> "writing", limit |-> 0, cursor |-> 0, idx |-> 0]
+EmptyState == [items |-> <<>>, bytes |-> 0, calc |-> 0, phase |-> "writing", limit |-> 0, cursor |-> 0, idx |-> 0,
+               scratch |-> [str |-> "", vi |-> <<>>, vb |-> <<>>, vs |-> <<>>, vvi |-> <<>>]]   \* the harness' destination objects
 InitLast   == [a |-> "Init", arg |-> <<>>, cls |-> "", ok |-> TRUE, exp |-> [len |-> 0, total |-> 0, predicted |-> 0]]
 
 Rem(st)   == st.limit - st.cursor
@@ -101,26 +102,69 @@ OpenStep(st, k) ==
 \* blocks, which carry no framing - the number of bytes
 ReadArg(it, via) == [t |-> it.t, via |-> via, n |-> IF it.t = "raw" THEN Len(it.v) ELSE 0]
 
-\* ---- read the next item, in writing order, as its own type
-\* fits: the item comes back, exactly EncLen bytes are consumed.
+\* ---- destinations.  operator>> reads INTO AN EXISTING OBJECT.  "read back ... yields equal
+\* values" holds for every destination object, not only for a newly constructed one, so the
+\* state of the destination is an input of Read (and part of its class), never of its result.
+\* The harness keeps one scratch object per destination type (scratch[T] = what it holds):
+\*   dst = "fresh"  : a newly constructed object
+\*   dst = "reused" : the scratch object as the previous read of that type left it
+\*   dst = "prepop" : the scratch object assigned the value `pre` beforehand
+\* (the harness replaces a scratch object by a new one after a read into it has thrown).
+DstType(it, via) ==
+  CASE it.t \in PodTags                    -> "pod"      \* T x; buf >> x
+    [] it.t \in {"str", "cstr"}            -> "str"      \* std::string
+    [] it.t = "vi"                         -> "vi"       \* std::vector<int>
+    [] it.t = "vs"                         -> "vs"       \* std::vector<std::string>
+    [] it.t = "vvi"                        -> "vvi"      \* std::vector<std::vector<int>>
+    [] it.t \in IntArrTags /\ via = "vec"  -> "vi"
+    [] it.t \in ByteArrTags /\ via = "vec" -> "vb"       \* std::vector<uint8_t>
+    [] OTHER                               -> "none"     \* getView / read(mem, n): nothing to reuse
+ScratchTypes == {"str", "vi", "vb", "vs", "vvi"}
+EmptyOf(T) == IF T = "str" THEN "" ELSE <<>>
+EmptyScratch == [T \in ScratchTypes |-> EmptyOf(T)]
+Dsts(it, via) == LET T == DstType(it, via) IN
+                 IF T = "none" THEN {"fresh"} ELSE IF T = "pod" THEN {"fresh", "reused"} ELSE {"fresh", "reused", "prepop"}
+Prior(st, T, dst, pre) == IF dst = "reused" THEN st.scratch[T] ELSE IF dst = "prepop" THEN pre ELSE EmptyOf(T)
+
+\* the input class of a destination: how what it holds relates to what is read into it
+MinOf2(a, b) == IF a < b THEN a ELSE b
+DstCls(T, dst, prior, v) ==
+  IF dst = "fresh" \/ T = "none" THEN "dst=fresh"
+  ELSE IF T = "pod" THEN "dst=" \o dst
+  ELSE LET common == 1..MinOf2(Len(prior), Len(v))
+           nested == T \in {"vs", "vvi"}
+       IN "dst=" \o dst \o "-"
+          \o (IF Len(prior) > Len(v) THEN "longer" ELSE IF Len(prior) < Len(v) THEN "shorter" ELSE "same-length")
+          \o (IF Len(v) = 0 /\ Len(prior) > 0 THEN ",empty-into-nonempty" ELSE "")
+          \o (IF nested /\ \E i \in common : Len(v[i]) = 0 /\ Len(prior[i]) > 0 THEN ",elem-empty-into-nonempty"
+              ELSE IF nested /\ \E i \in common : Len(prior[i]) > Len(v[i]) THEN ",elem-longer" ELSE "")
+
+\* ---- read the next item, in writing order, as its own type, into the destination dst
+\* fits: the item comes back - whatever the destination held -, exactly EncLen bytes are consumed.
 \* does not fit: throws; a single primitive read leaves the reader as it was;
 \* for a read made of several primitive reads the statement says "throws" and no
 \* more: the reader is left unconstrained ("broken": only a fresh Open follows).
-ReadStep(st, via) ==
+ReadStep(st, via, dst, pre) ==
   LET it   == st.items[st.idx + 1]
       n    == EncLen(it)
+      T    == DstType(it, via)
       cl   == it.t \o ":" \o via
+      dc   == DstCls(T, dst, Prior(st, T, dst, pre), it.v)
+      arg  == [t |-> it.t, via |-> via, n |-> IF it.t = "raw" THEN Len(it.v) ELSE 0,
+               dst |-> dst, pre |-> IF dst = "prepop" THEN pre ELSE 0]
+      holds(x) == IF T \in ScratchTypes THEN [st.scratch EXCEPT ![T] = x] ELSE st.scratch
   IN IF n <= Rem(st)
-     THEN LET st2 == [st EXCEPT !.cursor = @ + n, !.idx = @ + 1] IN
+     THEN LET st2 == [st EXCEPT !.cursor = @ + n, !.idx = @ + 1, !.scratch = holds(it.v)] IN
           [s |-> st2,
-           last |-> [a |-> "Read", arg |-> ReadArg(it, via), cls |-> cl \o ",fits", ok |-> TRUE,
+           last |-> [a |-> "Read", arg |-> arg, cls |-> cl \o ",fits," \o dc, ok |-> TRUE,
                      exp |-> [ret |-> it.v, st |-> RdObs(st2)]]]
      ELSE IF Atomic(it, via)
-     THEN [s |-> st,
-           last |-> [a |-> "Read", arg |-> ReadArg(it, via), cls |-> cl \o ",past-end", ok |-> FALSE,
+     THEN LET st2 == [st EXCEPT !.scratch = holds(EmptyOf(T))] IN
+          [s |-> st2,
+           last |-> [a |-> "Read", arg |-> arg, cls |-> cl \o ",past-end," \o dc, ok |-> FALSE,
                      exp |-> [ret |-> "throws", st |-> RdObs(st)]]]
-     ELSE [s |-> [st EXCEPT !.phase = "broken"],
-           last |-> [a |-> "Read", arg |-> ReadArg(it, via), cls |-> cl \o ",past-end", ok |-> FALSE,
+     ELSE [s |-> [st EXCEPT !.phase = "broken", !.scratch = holds(EmptyOf(T))],
+           last |-> [a |-> "Read", arg |-> arg, cls |-> cl \o ",past-end," \o dc, ok |-> FALSE,
                      exp |-> [ret |-> "throws"]]]
 
 \* ---- a typed read of a POD type that extends past the data: throws, nothing changes
@@ -158,9 +202,11 @@ Write(it)  == s.phase = "writing" /\ Take(WriteStep(s, it))
 Open(k)    == k \in 0..s.bytes /\ Take(OpenStep(s, k))
 OpenAll      == Open(s.bytes)                                   \* a reader over everything written
 OpenFrac(pm) == pm \in 0..1000 /\ Open((s.bytes * pm) \div 1000)   \* ... over the first pm/1000 of it
-Read(via)  == /\ s.phase = "reading" /\ s.idx < Len(s.items)
+Read(via, dst, pre) ==
+              /\ s.phase = "reading" /\ s.idx < Len(s.items)
               /\ via \in Vias(s.items[s.idx + 1])
-              /\ Take(ReadStep(s, via))
+              /\ dst \in Dsts(s.items[s.idx + 1], via)
+              /\ Take(ReadStep(s, via, dst, pre))
 Probe(t)   == ProbeEnabled(s, t) /\ Take(ProbeStep(s, t))
 View(n)    == ViewEnabled(s, n) /\ Take(ViewStep(s, n))
 
@@ -179,6 +225,11 @@ CursorIsOffset == s.phase = "reading" => s.cursor = Total(Prefix(s.items, s.idx)
 EndExactly    == (s.phase = "reading" /\ s.limit = s.bytes) =>
                     /\ (s.idx = Len(s.items) => AtEnd(s))
                     /\ (AtEnd(s) => Total(SubSeq(s.items, s.idx + 1, Len(s.items))) = 0)
+\* a read that fits yields the value written, whatever the destination held; the destination holds it
+RoundTrip     == last.a = "Read" /\ last.ok =>
+                    LET it == s.items[s.idx] T == DstType(it, last.arg.via) IN
+                    /\ last.exp.ret = it.v
+                    /\ T \in ScratchTypes => s.scratch[T] = it.v
 LastAgrees    == /\ "st" \in DOMAIN last.exp => last.exp.st.end = AtEnd(s) /\ last.exp.st.cursor = s.cursor
                  /\ "total" \in DOMAIN last.exp => last.exp.total = s.bytes /\ last.exp.predicted = s.calc
 ===============================================================================
